@@ -151,7 +151,7 @@ def run(tier, seed, replay):
                     f"{len(pairs)} files (repository samples + generated conforming files), one seeded renaming each",
                     len(pairs), fails, nontrivial=len(pairs),
                     samples=[{"file": p[0], "renamed": list(p[3].items())[:3]} for p in pairs[:2]], time_s=time.time() - t0)
-    explained = any(i.status == "failed" for i in chk.items)
+    explained = chk.has_unlisted_failure()
     if fails and not explained:
         (name, a, b), m = fails[0]
         chk.report_violation("C18.bounded.renaming", {"property": "C18", "obligation": "C18.bounded.renaming",
